@@ -827,4 +827,63 @@ def _shared_cache_directory():
     return SharedCacheDirectory()
 
 
-FAMILIES = [Histories(), HashSeeds(), OptionHistories(), Routes(), ClassInstances(), FailingReaders(), _shared_cache_directory()]
+class UnrelatedModulesInTheCall(object):
+    name = 'unrelated-modules-in-one-call'
+    describe = ('A-MIB names things it neither declares nor imports - a node in an OID DEFVAL, a node as OID parent, a type in a SYNTAX, '
+                'a label in an enumeration DEFVAL, a row in AUGMENTS, an object in an OBJECTS list - and B-MIB, which A-MIB does not '
+                'import, declares exactly those names: A-MIB alone, then A-MIB and B-MIB in one call in either order, then A-MIB alone '
+                'again on the same compiler; both back ends: the status, error class and text of A-MIB are the same every time')
+
+    LOOSE = {
+        'oid-defval': 'a OBJECT-TYPE SYNTAX OBJECT IDENTIFIER MAX-ACCESS read-write STATUS current DESCRIPTION "d" DEFVAL { bNode } ::= { enterprises 1 }\n',
+        'oid-parent': 'a OBJECT IDENTIFIER ::= { bNode 1 }\n',
+        'type': 'a OBJECT-TYPE SYNTAX BType MAX-ACCESS read-write STATUS current DESCRIPTION "d" ::= { enterprises 1 }\n',
+        'enum-defval': 'a OBJECT-TYPE SYNTAX INTEGER { x(1) } MAX-ACCESS read-write STATUS current DESCRIPTION "d" DEFVAL { bLabel } ::= { enterprises 1 }\n',
+        'augments': ('aTable OBJECT-TYPE SYNTAX SEQUENCE OF AEntry MAX-ACCESS not-accessible STATUS current DESCRIPTION "d" ::= { enterprises 1 }\n'
+                     'aEntry OBJECT-TYPE SYNTAX AEntry MAX-ACCESS not-accessible STATUS current DESCRIPTION "d" AUGMENTS { bEntry } ::= { aTable 1 }\n'
+                     'AEntry ::= SEQUENCE { aCol INTEGER }\n'
+                     'aCol OBJECT-TYPE SYNTAX INTEGER MAX-ACCESS read-only STATUS current DESCRIPTION "d" ::= { aEntry 1 }\n'),
+        'objects': 'aNotif NOTIFICATION-TYPE OBJECTS { bObj } STATUS current DESCRIPTION "d" ::= { enterprises 1 }\n',
+    }
+    B = ('B-MIB DEFINITIONS ::= BEGIN\nIMPORTS OBJECT-TYPE, enterprises FROM SNMPv2-SMI;\nbNode OBJECT IDENTIFIER ::= { enterprises 2000 7 }\n'
+         'BType ::= INTEGER { bLabel(5) }\n'
+         'bTable OBJECT-TYPE SYNTAX SEQUENCE OF BEntry MAX-ACCESS not-accessible STATUS current DESCRIPTION "d" ::= { enterprises 2001 }\n'
+         'bEntry OBJECT-TYPE SYNTAX BEntry MAX-ACCESS not-accessible STATUS current DESCRIPTION "d" INDEX { bObj } ::= { bTable 1 }\n'
+         'BEntry ::= SEQUENCE { bObj INTEGER }\n'
+         'bObj OBJECT-TYPE SYNTAX INTEGER MAX-ACCESS read-only STATUS current DESCRIPTION "d" ::= { bEntry 1 }\nEND\n')
+
+    def blocks(self, tier):
+        return [{'backend': b} for b in ('json', 'pysnmp')]
+
+    def cases(self, block, tier):
+        for k in sorted(self.LOOSE):
+            yield {'backend': block['backend'], 'loose': k}
+
+    def run_case(self, case):
+        a = ('A-MIB DEFINITIONS ::= BEGIN\nIMPORTS OBJECT-TYPE, NOTIFICATION-TYPE, enterprises FROM SNMPv2-SMI;\n' + self.LOOSE[case['loose']] + 'END\n')
+        w = env.CaptureWriter()
+        parser = env.shared_parser(DIALECT)
+        parser.reset()
+        comp = env.MibCompiler(parser, env.make_codegen(case['backend']), w)
+        texts = env.base_texts()
+        texts.update({'A-MIB': a, 'B-MIB': self.B})
+        comp.addSources(env.DictReader(texts))
+        comp.addSearchers(env.StubSearcher(*env.BASE_NAMES))
+
+        def obs(*req):
+            del w.written[:]
+            res = comp.compile(*req, ignoreErrors=True, rebuild=True)
+            st = res.get('A-MIB')
+            text = dict((n, d) for n, d, _ in w.written).get('A-MIB')
+            return (str(st), type(getattr(st, 'error', None)).__name__, mask(text))
+        runs = [('alone', obs('A-MIB')), ('with-B-after', obs('A-MIB', 'B-MIB')), ('with-B-before', obs('B-MIB', 'A-MIB')),
+                ('alone-again', obs('A-MIB'))]
+        vs = []
+        sig = 'C12|unrelated-modules|%s|%s' % (case['loose'], case['backend'])
+        for label, o in runs[1:]:
+            if o != runs[0][1]:
+                vs.append(('%s|%s-differs-from-alone' % (sig, label), 'alone %r, %s %r' % (runs[0][1][:2], label, o[:2])))
+        return repr([o[:2] for _, o in runs]), vs, 4
+
+
+FAMILIES = [Histories(), HashSeeds(), OptionHistories(), Routes(), ClassInstances(), FailingReaders(), _shared_cache_directory(), UnrelatedModulesInTheCall()]
